@@ -145,8 +145,8 @@ def good_comment(rng, prog, e, uniform=False):
         else:
             ind = base + (rng.choice(INDENTS) if rng.random() < 0.4 and not uniform else "")
             lines.append(ind + message_line(rng, prog, e))
-    names_p = e["params"] + ["nosuch"]
-    names_r = e["rets"] + ["nosuch"]
+    names_p = e["params"] + ["nosuch"] + e["rets"][:1]      # also a name that belongs to the other list
+    names_r = e["rets"] + ["nosuch"] + e["params"][:1]
     for _ in range(rng.choice([0, 0, 1, 2, 3])):
         kind = rng.choice(["param", "returns", "see"] if e["kind"] == "operation" or rng.random() < 0.3 else ["see"])
         ind = rng.choice(INDENTS)
